@@ -76,4 +76,29 @@ LEVELS["C09"] = {
     "note": BASE_NOTE,
 }
 
+_MUT_NOTE = BASE_NOTE + " Commands are driven at cli.<Command>.Run(ctx) level with a harness app.Context that mirrors ReconcileFile; the real reconciler, parser and serialiser code runs from SSA."
+LEVELS["C03"] = {
+    "text": "Bounded symbolic model checking of the reconciler's text edits: for every conforming initial file within the bound and every command, the line vectors before and after are "
+            "compared independently of klog's line code - all original lines survive byte-for-byte and in order, added lines form one block at the expected position, only the "
+            "open-range / pause line is rewritten (text before the placeholder kept). Digits, summary bytes and times are symbolic.",
+    "note": _MUT_NOTE,
+}
+LEVELS["C04"] = {
+    "text": "Bounded symbolic model checking of the commands' effect: one inductive step of each command from every conforming file of the bound (every command re-reads the file, so "
+            "one step from an arbitrary valid file covers histories of any length for the shapes within the bound), explicit histories of 2-4 commands, and the pause loop driven "
+            "for 1-3 ticks with symbolic / boundary clock increments; after every step parse(file) must equal the abstract model, and rejected commands must change nothing.",
+    "note": _MUT_NOTE,
+}
+LEVELS["C05"] = {
+    "text": "Bounded symbolic model checking of atomicity: every path through the harness mirror of ReconcileFile - invalid target files (every injected rule violation), failing "
+            "first or second step of multi-step commands, results that would not parse - must end with the file bytes unchanged and a non-zero error code; every success must "
+            "leave a file that parses.",
+    "note": _MUT_NOTE + " The process exit status is outside (kong/reflection).",
+}
+LEVELS["C11"] = {
+    "text": "Bounded symbolic model checking of style selection: inserted lines must use the target record's indentation and line ending, else the unanimous style of the other "
+            "records, else LF + 4 spaces; every command is executed twice with every iteration order of Go maps explored by the engine and must produce identical bytes; results must parse.",
+    "note": _MUT_NOTE,
+}
+
 NOT_APPLICABLE = {}
